@@ -47,18 +47,29 @@ import contextlib
 def time_limit(sec):
     """inner time limit inside a worker (re-arms the worker's own alarm afterwards); raises CaseTimeout"""
     import signal
-    old = signal.alarm(0)
+    old, _ = signal.setitimer(signal.ITIMER_REAL, 0)
     t0 = time.time()
-    signal.alarm(int(sec))
+    # repeating timer: an alarm delivered inside a context that swallows exceptions (weakref finalizers,
+    # __del__) would otherwise be lost and the limit with it
+    signal.setitimer(signal.ITIMER_REAL, float(sec), 0.5)
     try:
         yield
     finally:
-        signal.alarm(0)
+        signal.setitimer(signal.ITIMER_REAL, 0)
         if old:
-            signal.alarm(max(1, old - int(time.time() - t0)))
+            signal.setitimer(signal.ITIMER_REAL, max(0.5, old - (time.time() - t0)), 0.5)
 
 
 def _alarm(signum, frame):
+    import signal
+    f = frame
+    while f is not None:
+        # exceptions raised inside weakref finalizers / __del__ are swallowed by the interpreter:
+        # let the repeating timer try again half a second later
+        if f.f_code.co_filename.endswith("weakref.py") or f.f_code.co_name == "__del__":
+            return
+        f = f.f_back
+    signal.setitimer(signal.ITIMER_REAL, 0)
     raise CaseTimeout()
 
 
@@ -71,7 +82,7 @@ def _worker(args):
         t0 = time.time()
         limit = int(getattr(mod, "CASE_TIMEOUT", 120))
         signal.signal(signal.SIGALRM, _alarm)
-        signal.alarm(limit)
+        signal.setitimer(signal.ITIMER_REAL, float(limit), 0.5)
         try:
             r = mod.run_case(case)
         except CaseTimeout:
@@ -79,7 +90,7 @@ def _worker(args):
             return {"nontrivial": False, "tags": ["case_timeout"], "violations": [], "mismatches": [], "wall": time.time() - t0,
                     "timeout": True}
         finally:
-            signal.alarm(0)
+            signal.setitimer(signal.ITIMER_REAL, 0)
         r.setdefault("mismatches", []); r.setdefault("violations", []); r.setdefault("tags", [])
         r.setdefault("nontrivial", True)
         r["wall"] = time.time() - t0
